@@ -13,7 +13,7 @@ import tempfile
 import time
 
 VERIF = "/verif"
-REPO = "/repo"
+REPO = os.environ.get("VERIF_REPO", "/repo")
 SPEC = os.path.join(VERIF, "spec")
 HARNESS = os.path.join(VERIF, "harness")
 BUILD_ROOT = os.path.join(VERIF, ".build")
